@@ -1,6 +1,8 @@
 (** Proofs for the static half of C18: finite statements over the regenerated import / call-site
     tables, decided by vm_compute and lifted with forallb_forall. *)
-From RP2V Require Import Base.Prelude Base.Sorting Model.Types Model.Generated Model.MainRun Model.Imports Proofs.RunLemmas.
+From RP2V Require Import Base.Prelude Base.Sorting Model.Types.
+From RP2V Require Import Model.Generated Model.MainRun Model.Imports.
+From RP2V Require Import Proofs.RunLemmas.
 Open Scope Z_scope.
 
 Lemma imports_ok_true : imports_ok = true.
